@@ -281,6 +281,24 @@ def plan(S, prop, mode, tier, avoid):
                                                 "cra": cra, "cdec": cdec, "crad": 0.5},
              "self": False, "radius": rad, "perpoint": False, "rseed": 1, "maxmatch": -1, "sink": "mem",
              "path": "c%d_p0.txt" % c, "also": ["depth2"], "scalar_q": False, "c": c, "hugecover": True}])
+    bq = S.py("bigquery")
+    if prop == "C12" and chance(bq, 0.004):
+        # a catalogue-sized FIRST set (more than 100 000 query points) against a small matcher: implementations that
+        # work through long queries in blocks meet their block boundaries here
+        cra, cdec = round(bq.uniform(0, 360), 4), round(math.degrees(math.asin(bq.uniform(-0.95, 0.95))), 4)
+        crad = pick(bq, [0.5, 2.0, 10.0])
+        small = {"kind": "cap", "n": bq.randrange(20, 80), "seed": bq.randrange(1 << 30), "dups": False,
+                 "cra": cra, "cdec": cdec, "crad": crad}
+        c = ncallers
+        ncallers += 1
+        rad_b = float("%.3g" % (crad * bq.uniform(0.02, 0.1)))
+        callers.append([
+            {"k": "build", "m": "m%d" % c, "set": small, "depth": bq.randrange(3, max_depth_for(rad_b) + 1), "depth2": 4, "c": c},
+            {"k": "match", "m": "m%d" % c, "q": {"kind": "cap", "n": bq.randrange(100001, 140000), "seed": bq.randrange(1 << 30),
+                                                "dups": False, "cra": cra, "cdec": cdec, "crad": crad},
+             "self": False, "radius": rad_b, "perpoint": chance(bq, 0.3), "rseed": bq.randrange(1 << 30),
+             "maxmatch": pick(bq, [-1, 1, 2]), "sink": pick(bq, ["mem", "mem", "file"]),
+             "path": "c%d_p0.txt" % c, "also": [], "scalar_q": False, "c": c, "bigquery": True}])
     sched = S.py("schedule")
     idx = [0] * ncallers
     flat = []
@@ -519,6 +537,8 @@ def do_match(run, op, M, htm, root, judge, c15):
     run.trans.add("%s|match|mm=%s|r=%s|sink=%s:%s" % (st, feats["maxmatch"], feats["rclass"], sink, pstate if sink == "file" else ""))
     if op.get("hugecover"):
         run.fault("search_circle_covers_millions_of_leaves")
+    if op.get("bigquery"):
+        run.fault("first_set_of_more_than_100000_points")
     if m["ncalls"] > 0:
         run.fault("matcher_reused")
     if m["last"] == "rejected":
